@@ -177,15 +177,15 @@ PROPS["C16"] = {
 }
 PROPS["C15"] = {
     "theorems": ["C15_open_total", "C15_open_total_any_reader", "C15_accepted_archive_safe", "C15_scan_total"],
-    "suites": ["protodec", "tryinit", "hostile", "corrupt", "http"],
+    "suites": ["protodec", "tryinit", "hostile", "corrupt", "http", "clicorrupt"], "needs_cli": True,
     "rule": "cases: dictionary bytes (conforming, free-form, mutated, random, nested groups around the recursion limit) through "
             "the real prost decoder vs the model; archives with checksummed hostile fields (indexes, offsets, sizes, chunker "
             "parameters incl. 0 and extremes, enums, missing sub-messages, dictionary size field) through Archive::try_init vs the "
             "model; full clone pipeline (index, seed scan, fetch, decompress, verify) over hostile archives, bit flips, "
-            "truncations and misbehaving servers under catch_unwind with a watchdog. non-trivial = accepted or reaching the "
+            "truncations and misbehaving servers under catch_unwind with a watchdog; the bita binary on damaged archives "
+            "(exit status 0 or 1 only); a decompression bomb in a child process (peak memory). non-trivial = accepted or reaching the "
             "later phases",
-    "assumes": ["memory safety is Rust's (#![forbid(unsafe_code)])", "panics inside dependencies (prost, brotli, reqwest) are only sampled",
-                "decompression output is bounded by the decompressor, not by source_size (see DESIGN: P8)"],
+    "assumes": ["memory safety is Rust's (#![forbid(unsafe_code)])", "panics inside dependencies (prost, brotli, reqwest) are only sampled"],
     "trusted_base": [],
     "level_text": "Theorems (Coq): with every potential panic an explicit outcome of the model and every loop fuelled, opening any "
                   "byte string ends in Ok/Err; an accepted archive has a valid chunker configuration (so scanning never panics and "
@@ -195,11 +195,13 @@ PROPS["C15"] = {
 }
 PROPS["C04"] = {
     "theorems": ["C04_header_accept_implies", "C04_header_only", "C04_pinned_header_identity", "C04_payload_tamper_safe"],
-    "suites": ["tryinit", "corrupt", "clirefuse"], "needs_cli": True,
+    "suites": ["tryinit", "corrupt", "clirefuse", "clicorrupt"], "needs_cli": True,
     "rule": "cases: every single-bit flip and every truncation length of a small archive (exhaustive), sampled flips/truncations, "
             "payload swaps, overwrites, deletions, trailing garbage on larger ones, with and without seeds; scripted servers "
             "returning wrong bytes, short bodies, extra bytes, cuts; --verify-header with mismatching / prefix / empty / matching "
-            "values. Oracle: error, or output identical to the source; header changes rejected at open",
+            "values; the bita binary itself (clicorrupt) on truncated / flipped / swapped / overwritten / shortened archives from "
+            "a file and over http, with and without a seed and --verify-output. Oracle: error, or output identical to the "
+            "source; header changes rejected at open; local CLI cases also compared with the model's open_and_clone",
     "assumes": ["collision / second-preimage resistance of Blake2b-512 appears as explicit injectivity hypotheses", "hash length >= 8"],
     "trusted_base": [],
     "level_text": "Theorems (Coq): acceptance of arbitrary bytes implies the stored header hash equals the hash of the preceding "
